@@ -90,6 +90,11 @@ fn script(kind: &str) -> Vec<EStep> {
             EStep::Send(SET_VRING_KICK, p_u64(r as u64), true, Effect::Activate, "SET_VRING_KICK"),
             EStep::Recv,
         ],
+        "replace-newfd" => vec![
+            // the kick descriptor of a started, enabled ring is replaced without a stop
+            EStep::Send(SET_VRING_KICK, p_u64(r as u64), true, Effect::None, "SET_VRING_KICK(new descriptor)"),
+            EStep::Recv,
+        ],
         "stop-restart-newfd" => vec![
             EStep::Send(GET_VRING_BASE, p_vring_state(r, 0), false, Effect::Deactivate, "GET_VRING_BASE"),
             EStep::Recv,
@@ -368,6 +373,7 @@ pub fn run(rep: &mut Report) {
     run_one(rep, Sc12 { kind: "disable-enable", kicks: 1, mutex: true }, if thorough { 4 } else { 1 }, per);
     // restart with a different descriptor, an early kick on the old one and a final kick on the new one
     run_one(rep, Sc12 { kind: "stop-restart-newfd", kicks: 2, mutex: false }, if thorough { 3 } else { 1 }, per);
+    run_one(rep, Sc12 { kind: "replace-newfd", kicks: 2, mutex: false }, if thorough { 4 } else { 2 }, per);
     // two rings on one worker: the observed ring's event can sit unread in an epoll batch while the
     // worker is inside the other ring's handler
     for kind in ["2r-disable-enable", "2r-stop-restart", "2r-reset-enable"] {
@@ -378,7 +384,7 @@ pub fn run(rep: &mut Report) {
         run_one(rep, Sc12 { kind: "stop-restart", kicks: 2, mutex: false }, 2, per);
         run_one(rep, Sc12 { kind: "disable-only", kicks: 1, mutex: false }, 3, per);
     }
-    rep.rule = "per scenario (disable/enable, stop(GET_VRING_BASE)/restart, reset/enable; the same on two rings of one worker; restart with a new kick descriptor; RwLock and Mutex rings; 1-2 kicks): depth-first enumeration of all schedules of {worker thread, daemon thread, frontend script, guest} with at most b preemptions, b = 0,1,2 (thorough: up to 6 for single-ring scenarios, 3-4 otherwise), after a deterministic set-up prefix. Scheduling points: recvmsg, sendmsg, epoll_wait (before / after return), epoll_ctl of the library threads, the worker's acquisitions of the ring state lock (hook) and the entry of the backend's handle_event. Oracle per state: handle_event is not entered after the reply to a disabling/stopping message was written unless a later enabling message was already sent; at the end: the last kick was followed by a dispatch while active, the worker is alive, the frontend's script completed. Non-trivial = schedules with at least one real choice".into();
+    rep.rule = "per scenario (disable/enable, stop(GET_VRING_BASE)/restart, reset/enable; the same on two rings of one worker; restart with a new kick descriptor; replacement of the kick descriptor of a started ring; RwLock and Mutex rings; 1-2 kicks): depth-first enumeration of all schedules of {worker thread, daemon thread, frontend script, guest} with at most b preemptions, b = 0,1,2 (thorough: up to 6 for single-ring scenarios, 3-4 otherwise), after a deterministic set-up prefix. Scheduling points: recvmsg, sendmsg, epoll_wait (before / after return), epoll_ctl of the library threads, the worker's acquisitions of the ring state lock (hook) and the entry of the backend's handle_event. Oracle per state: handle_event is not entered after the reply to a disabling/stopping message was written unless a later enabling message was already sent; at the end: the last kick was followed by a dispatch while active, the worker is alive, the frontend's script completed. Non-trivial = schedules with at least one real choice".into();
     rep.assumptions.push("data-race freedom between scheduling points (lock-protected or kernel state); sequentially consistent scheduler".into());
     rep.assumptions.push("'states' = distinct (per-thread step counters, trace length) fingerprints over all executions".into());
 }
@@ -394,6 +400,7 @@ pub fn replay(case: &Value, rep: &mut Report) {
         Some(&"reset-enable") => "reset-enable",
         Some(&"disable-only") => "disable-only",
         Some(&"stop-restart-newfd") => "stop-restart-newfd",
+        Some(&"replace-newfd") => "replace-newfd",
         Some(&"2r-disable-enable") => "2r-disable-enable",
         Some(&"2r-stop-restart") => "2r-stop-restart",
         Some(&"2r-reset-enable") => "2r-reset-enable",
